@@ -38,11 +38,29 @@
   conditions; lists of policies.
   NOT covered by the round-trip theorems (they are in the executable model and in the correspondence check):
   `like` (pattern literals);
-  `has a.b.c` paths (parser sugar, never a rendering; covered by correspondence); whitespace / comment layout and
-  "unterminated literal" (these concern the scanner, which is C18's model; here they are checked on the Go
-  implementation by the harness only).
+  `has a.b.c` paths (parser sugar, never a rendering; covered by correspondence); "unterminated literal"
+  (a scanner error: C18's model, checked on the Go implementation by the harness).
+
+  TEXT (bridge to C18's pure lexer `Lx.tokensWithPos`, Model/Text/Layout.lean, Lemmas/C07Lex*.lean)
+  * C07_lex_layout                    FULL strength: for every token list whose tokens are `Lexable` (identifier /
+                                      keyword / integer / string literal with any escapes / operator / unknown
+                                      character) and every layout of whitespace, `// …` and `/* … */` comments whose
+                                      neighbours do not merge (`sepOK`), lexing the BYTES of the text gives back exactly
+                                      those classes and texts, each at the byte offset where it was written
+  * C07_lex_layout_invariant          two admissible layouts of one token list lex to the same tokens up to positions
+  * C07_admissible_of_pairs           the hypothesis in its pairwise form (`Separated t₁ sep t₂` for neighbours)
+  * C07_separator_skipped             a separator alone lexes to the single EOF token
+  * C07_render_tokens_lexable         the printers' tokens are `Lexable`; the single-space layout is admissible
+  * C07_parse_text_roundtrip_partial  bytes of `renderMin p` / `renderFull p` under ANY admissible layout → lexer →
+                                      parser = `[p]` positioned at its first token (partial: the fragment `policyOK`);
+                                      C07_parse_text_single_space_partial: the same without the admissibility
+                                      hypothesis for the single-space layout
+  * C07_parse_text_list_roundtrip_partial  texts of several policies: every policy is read back positioned at ITS
+                                      first token
 -/
 import CedarGoProofs.Lemmas.C07Head
+import CedarGoProofs.Lemmas.C07LexProps
+import CedarGoProofs.Lemmas.C07LexList
 import CedarGo.Model.Text.Marshal
 namespace CedarGo
 open CedarGo.Text
@@ -232,5 +250,150 @@ theorem C07_rejects_unknown_method (name : String) (lhs : Expr) (args : List Exp
 example : extLookup "foo" = none := by decide
 example : extLookup "isIpv4" = some (1, true) := by decide
 example : extLookup "ip" = some (1, false) ∧ "ip" ∉ builtinMethods := by decide
+
+/-! ## text: whitespace, comments and the lexer (bridge to C18) -/
+
+/-- **a separator is what the lexer skips**: the bytes of a separator alone (whitespace, `// …` closed by a
+    newline or by the end of the input, `/* … */`) lex to the single EOF token, placed after them -/
+theorem C07_separator_skipped (sep : String) (h : IsSeparator true sep) :
+    Lx.tokensWithPos (strBytes sep) = .ok [⟨.eof, Lx.goPos (strBytes sep) (strBytes sep).length, ""⟩] := by
+  have := tokensWithPos_layout [sep] [] h
+  simpa [renderBytes, renderChars, placed, strBytes] using this
+
+/-- a separator that may stand between two tokens may also end the text -/
+theorem C07_separator_final (sep : String) (h : IsSeparator false sep) : IsSeparator true sep := sepChars_mono h
+
+/-- **lexing inverts every admissible layout** (full strength).  For every token list `ts` and layout `lay` with
+    `Admissible lay ts` — one separator before each token and one at the end, each made of whitespace and comments;
+    every token `Lexable`; every token `sepOK` with respect to the character that follows it — the pure lexer of
+    C18 on the BYTES of the text succeeds and returns `placed …`:
+    (1) the classes and texts are exactly those of `ts`, followed by the EOF token;
+    (2) every token sits at the byte offset where it was written and its position is `Lx.goPos bytes offset`
+        (= `Lx.posOf bytes offset`, i.e. offset / line / column, for a non-empty text — `C18_position_exact`). -/
+theorem C07_lex_layout (lay : Layout) (ts : List Token) (h : Admissible lay ts) :
+    Lx.tokensWithPos (renderBytes lay ts) = .ok (placed (renderBytes lay ts) 0 lay ts) ∧
+    (placed (renderBytes lay ts) 0 lay ts).map (fun t => (t.ty, t.text)) = ts.map (fun t => (t.ty, t.text)) ++ [(.eof, "")] ∧
+    (∀ t ∈ placed (renderBytes lay ts) 0 lay ts, t.pos = Lx.goPos (renderBytes lay ts) t.pos.offset) ∧
+    (parserInput (placed (renderBytes lay ts) 0 lay ts)).map stripPos = ts.map stripPos :=
+  ⟨tokensWithPos_layout lay ts h, placed_classes _ ts lay 0 (admissible_length ts lay h), placed_positions _ ts lay 0,
+   by rw [parserInput_placed _ ts lay 0 (admissible_length ts lay h)]; exact placedToks_strip _ ts lay 0 (admissible_length ts lay h)⟩
+
+/-- the PAIRWISE form of the hypothesis: separators are whitespace / comments, tokens are `Lexable`, every two
+    neighbours `t₁ sep t₂` are `Separated` (and the last token is `sepOK` before the final separator) — this is all
+    `Admissible` asks for -/
+theorem C07_admissible_of_pairs (lay : Layout) (ts : List Token) (h : AdmissiblePairs lay ts) : Admissible lay ts :=
+  admissible_of_pairs ts lay h
+
+/-- separators as BYTE strings: exactly the UTF-8 bytes of the separators above (bytes that are not valid UTF-8 are a
+    scanner error wherever they occur, comments included, so no byte-level separator is lost) -/
+theorem C07_separator_bytes (fin : Bool) (bs : List UInt8) :
+    IsSeparatorBytes fin bs ↔ ∃ s : String, bs = strBytes s ∧ IsSeparator fin s := isSeparatorBytes_iff fin bs
+
+/-- **layout invariance**: two admissible layouts of the same token list lex to token lists that are equal up to
+    positions (same length, same classes, same texts) -/
+theorem C07_lex_layout_invariant (lay₁ lay₂ : Layout) (ts : List Token) (h₁ : Admissible lay₁ ts) (h₂ : Admissible lay₂ ts) :
+    ∃ toks₁ toks₂, Lx.tokensWithPos (renderBytes lay₁ ts) = .ok toks₁ ∧ Lx.tokensWithPos (renderBytes lay₂ ts) = .ok toks₂ ∧
+      toks₁.map stripPos = toks₂.map stripPos := by
+  obtain ⟨a₁, b₁, _, _⟩ := C07_lex_layout lay₁ ts h₁
+  obtain ⟨a₂, b₂, _, _⟩ := C07_lex_layout lay₂ ts h₂
+  exact ⟨_, _, a₁, a₂, map_stripPos_of_classes _ _ (b₁.trans b₂.symm)⟩
+
+/-- the hypothesis is satisfiable by a layout with whitespace, a block comment and a line comment -/
+example : Admissible [" ", "/**/", "//x\n", ""] [idT "a", opT "<", intT 1] := by
+  have e1 : "/**/".toList = '/' :: '*' :: ([] ++ '*' :: '/' :: []) := by decide +kernel
+  have e2 : "//x\n".toList = '/' :: '/' :: (['x'] ++ '\n' :: []) := by decide +kernel
+  have s2 : IsSeparator false "/**/" := by
+    unfold IsSeparator; rw [e1]; exact .block false [] [] ⟨rfl, by simp⟩ (.nil _)
+  have s3 : IsSeparator false "//x\n" := by
+    unfold IsSeparator; rw [e2]; exact .line false ['x'] [] (by intro c hc; simp at hc; subst hc; decide) (.nil _)
+  exact ⟨isSeparator_space false, lexable_id "a" (by decide +kernel), by decide +kernel,
+    s2, lexable_op "<" (by decide +kernel), by decide +kernel,
+    s3, lexable_int 1, by decide +kernel, isSeparator_empty true⟩
+
+/-- a layout with every comment form, and tokens of every class (`=` is an UNKNOWN token; `1a` is INT then IDENT) -/
+example : Lx.tokensWithPos (renderBytes [" /* c */\n", "", "// x\n\t", "", " ", "/**/", "//é"]
+      [idT "a1", opT "<=", ⟨.int, noPos, "1"⟩, idT "a", ⟨.unknown, noPos, "="⟩, strT "q\"\n"])
+    = .ok [⟨.ident, ⟨9, 2, 1⟩, "a1"⟩, ⟨.operator, ⟨11, 2, 3⟩, "<="⟩, ⟨.int, ⟨19, 3, 2⟩, "1"⟩, ⟨.ident, ⟨20, 3, 3⟩, "a"⟩,
+           ⟨.unknown, ⟨22, 3, 5⟩, "="⟩, ⟨.string, ⟨27, 3, 10⟩, "\"q\\\"\\n\""⟩, ⟨.eof, ⟨38, 3, 20⟩, ""⟩] := by
+  decide +kernel
+
+/-- **the printers write lexable text**: every token of `renderMin p` / `renderFull p` (p in the fragment, annotation
+    keys identifiers or reserved words) is `Lexable`; any two of them may be written with one space in between; and
+    the single-space layout of the whole rendering is admissible -/
+theorem C07_render_tokens_lexable (full : Bool) (p : Policy) (h : policyOK full p = true) (ha : annKeysOK p = true) :
+    (∀ t ∈ renderPolicy full p, Lexable t) ∧
+    (∀ t₁ ∈ renderPolicy full p, ∀ t₂ ∈ renderPolicy full p, Separated t₁ " " t₂) ∧
+    Admissible (spaceLayout (renderPolicy full p).length) (renderPolicy full p) :=
+  ⟨allLex_renderPolicy full p h ha, fun t₁ h₁ t₂ _ => separated_space (allLex_renderPolicy full p h ha t₁ h₁) t₂,
+   admissible_spaceLayout _ (allLex_renderPolicy full p h ha)⟩
+
+/-- **text round trip**: for every policy `p` of the proved fragment and EVERY admissible layout of its rendering
+    (`renderMin` for `full = false`, `renderFull` for `full = true`), lexing the bytes with C18's pure lexer and parsing
+    the tokens yields exactly `[p]`, with `position` = offset / line / column (`Lx.posOf`) of its first token, which
+    starts right after the first separator.
+    FULL statement: the same for every policy of the grammar.
+    Missing: `like` (as for `C07_parse_policy_renderMin_partial`).  Texts of several policies:
+    `C07_parse_text_list_roundtrip_partial`. -/
+theorem C07_parse_text_roundtrip_partial (full : Bool) (p : Policy) (lay : Layout) (h : policyOK full p = true)
+    (hadm : Admissible lay (renderPolicy full p)) :
+    parseBytes (renderBytes lay (renderPolicy full p)) =
+      .ok (some (.ok [{ p with position := positionAt (renderBytes lay (renderPolicy full p)) (strBytes (lay.headD "")).length }])) := by
+  have hpos : p.position = {} := by
+    simp only [policyOK, Bool.and_eq_true, beq_iff_eq] at h; exact h.1.2
+  have h1 : parsePolicies (renderPolicy full p) = some (.ok [p]) := by
+    have := C07_parse_policies_render_partial full [p] (by simp [h])
+    simpa [renderListToks] using this
+  exact parseBytes_position lay _ p hadm (renderPolicy_ne_nil full p)
+    (parsePolicies_SP_of_default h1 (by intro q hq; simp at hq; rw [hq]; exact hpos))
+
+/-- **texts of several policies**: for every list `ps` of policies of the proved fragment and every admissible
+    layout of `renderList full ps` (the renderings one after the other), lexing the bytes and parsing yields exactly
+    `ps`, EVERY policy positioned at its own first token (`positioned`: the k-th policy starts where the tokens of the
+    first k-1 renderings end), and every token position is offset / line / column (`positionAt` = `Lx.posOf`) of
+    the byte where the token was written.  (Needs that the parser leaves a SUFFIX of its input: `policy_suf`.) -/
+theorem C07_parse_text_list_roundtrip_partial (full : Bool) (ps : List Policy) (lay : Layout) (h : ps.all (policyOK full) = true)
+    (hadm : Admissible lay (renderList full ps)) :
+    parseBytes (renderBytes lay (renderList full ps)) =
+      .ok (some (.ok (positioned full ps (parserInput (placed (renderBytes lay (renderList full ps)) 0 lay (renderList full ps)))))) ∧
+    (ps ≠ [] → ∀ t ∈ parserInput (placed (renderBytes lay (renderList full ps)) 0 lay (renderList full ps)),
+      posOfC07 t = positionAt (renderBytes lay (renderList full ps)) t.pos.offset) := by
+  rw [renderList_eq] at hadm ⊢
+  refine ⟨?_, fun hne => parserInput_positions lay _ hadm ?_⟩
+  · rw [parserInput_placed _ _ lay 0 (admissible_length _ lay hadm)]
+    exact parseBytes_positioned full ps lay h hadm
+  · cases ps with
+    | nil => exact absurd rfl hne
+    | cons p ps =>
+      intro e
+      have := congrArg List.length e
+      simp [renderListToks, renderPolicy] at this
+
+/-- two policies in one text: the second one is positioned at ITS first token (byte 36, line 2, column 2) -/
+example : (match parseBytes (strBytes "permit(principal,action,resource);\n forbid(principal,action,resource);") with
+    | .ok (some (.ok [q₁, q₂])) => decide (q₁.position = { filename := "", offset := 0, line := 1, column := 1 }) &&
+        decide (q₂.position = { filename := "", offset := 36, line := 2, column := 2 })
+    | _ => false) = true := by
+  decide +kernel
+
+/-- the single-space text of `renderMin p` / `renderFull p` needs no admissibility hypothesis: it is read back as `[p]`
+    at offset 0, line 1, column 1 -/
+theorem C07_parse_text_single_space_partial (full : Bool) (p : Policy) (h : policyOK full p = true) (ha : annKeysOK p = true) :
+    parseBytes (renderBytes (spaceLayout (renderPolicy full p).length) (renderPolicy full p)) =
+      .ok (some (.ok [{ p with position := { filename := "", offset := 0, line := 1, column := 1 } }])) := by
+  rw [C07_parse_text_roundtrip_partial full p _ h (C07_render_tokens_lexable full p h ha).2.2]
+  have : (spaceLayout (renderPolicy full p).length).headD "" = "" := by
+    cases (renderPolicy full p).length <;> rfl
+  rw [this]
+  simp [positionAt, strBytes, encChars, posOf_zero]
+
+example : policyOK false { effect := .permit, annotations := [("id", "a b"), ("if", "")], conditions := [(true, .binop .lt (.lit (.long 1)) (.lit (.long (-2))))] } = true ∧
+    annKeysOK { effect := .permit, annotations := [("id", "a b"), ("if", "")], conditions := [(true, .binop .lt (.lit (.long 1)) (.lit (.long (-2))))] } = true := by
+  decide +kernel
+
+/-- the composed pipeline on a concrete text with comments (the policy starts at byte 9 = line 3, column 1) -/
+example : (match parseBytes (strBytes "// head\n\npermit /* all */ (principal,action,resource)when{1<2};") with
+    | .ok (some (.ok [q])) => decide (q.position = { filename := "", offset := 9, line := 3, column := 1 }) && q.conditions.length == 1
+    | _ => false) = true := by
+  decide +kernel
 
 end CedarGo
